@@ -143,12 +143,37 @@ pub trait Probe {
 pub trait ErrProbe {
     /// ("nf", None) for strum::ParseError::VariantNotFound, ("ue", Some(payload)) for UserErr
     fn enc(&self) -> (&'static str, Option<String>);
+    /// Display / Debug / Error surface of the error value as JSON members (None: nothing to observe)
+    fn surface(&self) -> Option<String> { None }
 }
 impl ErrProbe for strum::ParseError {
     fn enc(&self) -> (&'static str, Option<String>) { match self { strum::ParseError::VariantNotFound => ("nf", None) } }
+    fn surface(&self) -> Option<String> {
+        use std::collections::hash_map::DefaultHasher;
+        use std::hash::{Hash, Hasher};
+        let c = *self;                       // Copy
+        let d = self.clone();                // Clone
+        let h = |x: &strum::ParseError| { let mut s = DefaultHasher::new(); x.hash(&mut s); s.finish() };
+        let e: &dyn std::error::Error = self;
+        #[allow(deprecated)]
+        let descr = e.description().to_string();
+        Some(format!("\"display\":{},\"debug\":{},\"padded\":{},\"descr\":{},\"source_none\":{},\"eq_copy\":{},\"hash_same\":{},\"dyn_display\":{}",
+            jcps(&self.to_string()), jcps(&format!("{:?}", self)), jcps(&format!("{:>30}", self)), jcps(&descr),
+            jbool(e.source().is_none()), jbool(c == *self && d == *self), jbool(h(&c) == h(self)), jcps(&e.to_string())))
+    }
 }
 impl ErrProbe for UserErr {
     fn enc(&self) -> (&'static str, Option<String>) { ("ue", Some(self.0.clone())) }
+}
+
+/// what the error of a failed parse offers besides its identity (strum::ParseError only); one event
+pub fn perr_event<E, X>(o: &mut Out, def: u32, s: &str)
+where E: Probe + core::str::FromStr<Err = X>, X: ErrProbe {
+    if let Ok(Err(x)) = catch(|| <E as core::str::FromStr>::from_str(s)) {
+        if let Some(body) = x.surface() {
+            o.line(&format!("{{\"op\":\"perr\",\"def\":{},\"input\":{},{}}}", def, jcps(s), body));
+        }
+    }
 }
 
 /// one parse result as a JSON record {k,i,pd,s,uc,ua}
